@@ -37,10 +37,45 @@ def earley(g, toks):
                     if pd < len(prhs) and prhs[pd] == ('n', l): add(k, (pj, pd + 1, po), work)
     return (START, 1, 0) in S[n]
 
+def viable_prefix_len(g, toks):
+    """number of leading tokens that form a viable prefix (some sentence starts with them), by Earley over productive rules only"""
+    INF = 10 ** 9
+    m = gg.productive(g)
+    rules = [(r.lhs, [('n', s[1]) if s[0] == 'n' else ('t', g.symterm(s)) for s in r.rhs]) for r in g.rules
+             if all(s[0] != 'n' or m[s[1]] < INF for s in r.rhs)]
+    if m[g.root] >= INF: return 0
+    byl = {}
+    for i, (l, r) in enumerate(rules): byl.setdefault(l, []).append(i)
+    START = -1; n = len(toks)
+    S = [set() for _ in range(n + 1)]
+    S[0].add((START, 0, 0))
+    for k in range(n + 1):
+        work = list(S[k])
+        def add(it):
+            if it not in S[k]: S[k].add(it); work.append(it)
+        while work:
+            ri, dot, org = work.pop()
+            rhs = [('n', g.root)] if ri == START else rules[ri][1]
+            if dot < len(rhs):
+                s = rhs[dot]
+                if s[0] == 'n':
+                    for rj in byl.get(s[1], ()): add((rj, 0, k))
+                    for (cj, cd, co) in list(S[k]):
+                        if co == k and cj != START and rules[cj][0] == s[1] and cd == len(rules[cj][1]): add((ri, dot + 1, org))
+                elif k < n and toks[k] == s[1]:
+                    S[k + 1].add((ri, dot + 1, org))
+            elif ri != START:
+                l = rules[ri][0]
+                for (pj, pd, po) in list(S[org]):
+                    prhs = [('n', g.root)] if pj == START else rules[pj][1]
+                    if pd < len(prhs) and prhs[pd] == ('n', l): add((pj, pd + 1, po))
+        if k < n and not S[k + 1]: return k
+    return n
+
 def main():
     rnd = random.Random(12345)
     st = gg.grammar_stream(rnd, want_lr1=1.0)
-    checked = 0; grammars = 0
+    checked = 0; grammars = 0; errpos = 0
     gs = gg.core_grammars()
     while grammars < 120:
         if gs: g = gs.pop(); tb = ref_lr1.build(g)
@@ -54,5 +89,17 @@ def main():
             checked += 1
             if a != b:
                 print('SELFTEST FAILED: ref_lr1 and Earley disagree on', g.text(), s, a, b); return 1
-    print('selftest ok: ref_lr1 == Earley on %d inputs of %d LR(1) grammars' % (checked, grammars))
+            if not a:
+                r = ref_lr1.parse(tb, s, recover=False)
+                vp = viable_prefix_len(g, s)
+                if r.errors and r.errors[0] != vp:
+                    print('SELFTEST FAILED: ref_lr1 reports the error at token', r.errors[0], 'but the longest viable prefix has', vp, 'tokens:', g.text(), s); return 1
+                errpos += 1
+    print('selftest ok: ref_lr1 == Earley on %d inputs of %d LR(1) grammars; error position == end of the longest viable prefix on %d rejected inputs' % (checked, grammars, errpos))
+    from . import ref_regex
+    if ref_regex.selftest(n=300): return 1
+    # the pattern parser must agree with the renderer on the frozen corpus (every corpus pattern parses)
+    from . import regex_check
+    n = len(regex_check.corpus())
+    print('selftest ok: %d corpus patterns parse with the reference pattern parser' % n)
     return 0
